@@ -187,25 +187,49 @@ def validate_traces(ctx: Ctx, module: str, cfg: str, traces: list[dict], *, time
     Returns the list of rejections."""
     if not traces:
         return []
-    d = tempfile.mkdtemp(prefix='tlctrace-')
-    try:
-        tf = Path(d) / 'traces.ndjson'
-        with open(tf, 'w') as f:
-            for t in traces:
-                f.write(json.dumps(_nonull(t)) + '\n')
-        e = {'TRACE_FILE': str(tf)}
-        if env:
-            e.update(env)
-        res = run(module, cfg, workers=1, timeout=timeout, env=e, deadlock=False, jvm=jvm)
-    finally:
-        shutil.rmtree(d, ignore_errors=True)
-    out = res['out']
-    if 'TRACEVALIDATION-DONE' not in out:
-        raise MachineryError(f'trace validation did not complete for {module}:\n{_tail(out)}')
-    rejected = []
-    for m in re.finditer(r'<<"REJECTED", "([^"]*)", (\d+), (\d+)>>', out):
-        rejected.append({'t': m.group(1), 'matched': int(m.group(2)), 'total': int(m.group(3))})
-    ctx.add_tlc(res)
+    pending = list(traces)
+    rejected: list[dict] = []
+    for attempt in range(6):
+        d = tempfile.mkdtemp(prefix='tlctrace-')
+        try:
+            tf = Path(d) / 'traces.ndjson'
+            with open(tf, 'w') as f:
+                for t in pending:
+                    f.write(json.dumps(_nonull(t)) + '\n')
+            e = {'TRACE_FILE': str(tf)}
+            if env:
+                e.update(env)
+            res = run(module, cfg, workers=1, timeout=timeout, env=e, deadlock=False, jvm=jvm)
+        finally:
+            shutil.rmtree(d, ignore_errors=True)
+        out = res['out']
+        ctx.add_tlc(res)
+        # TLC stops at the first error (an invariant of the trace specification violated by one trace, or an
+        # expression it cannot evaluate on one trace): the registers of the traces it had not reached yet
+        # say nothing.  That trace is reported, taken out, and the others are validated again.
+        err = re.search(r'^Error: (.*)$', out, re.M)
+        if err and not re.search(r'(Invariant|property) \S+ is violated', err.group(1)):
+            # TLC could not evaluate the trace specification on the recorded data: that is our machinery, not the code
+            raise MachineryError(f'TLC failed while validating traces against {module} ({err.group(1)[:200]}):\n{_tail(out)}')
+        if err:
+            m = re.search(r'/\\ tid = (\d+)(?![\s\S]*/\\ tid = )', out)
+            if not m:
+                raise MachineryError(f'TLC reported an error during trace validation of {module} that cannot be attributed to a trace:\n{_tail(out)}')
+            bad = pending[int(m.group(1)) - 1]
+            lm = re.search(r'/\\ l = (\d+)(?![\s\S]*/\\ l = )', out)
+            rejected.append({'t': bad['t'], 'matched': max(0, int(lm.group(1)) - 1) if lm else 0, 'total': len(bad['ev']), 'tlc_error': err.group(1)[:300]})
+            ctx.log(f'TLC trace validation {module}: trace {bad["t"]} stopped TLC ({err.group(1)[:120]}); validating the remaining {len(pending) - 1} again')
+            pending = [t for t in pending if t is not bad]
+            if not pending:
+                break
+            continue
+        if 'TRACEVALIDATION-DONE' not in out:
+            raise MachineryError(f'trace validation did not complete for {module}:\n{_tail(out)}')
+        for m in re.finditer(r'<<"REJECTED", "([^"]*)", (\d+), (\d+)>>', out):
+            rejected.append({'t': m.group(1), 'matched': int(m.group(2)), 'total': int(m.group(3))})
+        break
+    else:
+        raise MachineryError(f'trace validation of {module}: TLC kept stopping on errors after 6 rounds')
     ctx.log(
         f'TLC trace validation {module}: {len(traces)} traces, {len(rejected)} rejected, '
         f'{res["generated"]} states, {res["wall_s"]}s'
